@@ -800,9 +800,43 @@ def _scalarize(fn: FunctionInfo, value_classes: dict[str, tuple[ClassInfo, list[
 
 
 # --------------------------------------------------------------------------- driver
+def _restore_equivalent(repo: Repo, census: dict, report: dict[str, object]) -> None:
+    """a known function whose text changed but whose canonical form (canonical.py) is that of the confirmed function is the same
+    function written differently: the rules read the confirmed spelling"""
+    from .canonical import canonical_hash, signatures_of
+
+    sig = signatures_of({mi.relpath: mi.tree for mi in repo.modules.values()})
+    for mi in repo.modules.values():
+        known = census.get(mi.name)
+        if known is None:
+            continue
+        shas, sources = known.get("body_sha", {}), known.get("source", {})
+        for fn in list(mi.functions.values()) + [m for c in mi.classes.values() for m in c.methods.values()]:
+            src = sources.get(fn.qualname)
+            if src is None or (shas.get(fn.qualname) == _body_sha(fn) and ast.dump(fn.node.args) == ast.dump(ast.parse(src).body[0].args)):  # type: ignore[attr-defined]
+                continue
+            try:
+                ref = ast.parse(src).body[0]
+                if not isinstance(ref, ast.FunctionDef) or ast.dump(ast.Module(ref.decorator_list, [])) != ast.dump(ast.Module(fn.node.decorator_list, [])):
+                    continue
+                same = canonical_hash(fn.node, sig) == canonical_hash(ref, sig)
+            except (RecursionError, ValueError, TypeError, AttributeError):
+                continue
+            if not same:
+                continue
+            ast.increment_lineno(ref, fn.node.lineno - 1)
+            parent = fn.cls.node if fn.cls is not None else mi.tree
+            for i, st in enumerate(parent.body):
+                if st is fn.node:
+                    parent.body[i] = ref
+            fn.node = ref
+            report.setdefault("restored_equivalent", []).append(fn.where)  # type: ignore[union-attr]
+
+
 def normalize_repo(repo: Repo) -> dict[str, object]:
     census = _load_census().get("modules", {})
     report: dict[str, object] = {"inlined_helpers": [], "kept_helpers": [], "propagated_constants": [], "gave_up": []}
+    _restore_equivalent(repo, census, report)
     for mi in repo.modules.values():
         known = census.get(mi.name)
         if known is None:
